@@ -1,4 +1,7 @@
-use std::sync::{Mutex, MutexGuard};
+use std::{
+    collections::HashSet,
+    sync::{Mutex, MutexGuard},
+};
 
 use cosmian_crypto_core::{reexport::rand_core::SeedableRng, CsRng, Secret, SymmetricKey};
 use zeroize::Zeroizing;
@@ -156,6 +159,17 @@ impl Covercrypt {
         encapsulation: &XEnc,
     ) -> Result<(Secret<32>, XEnc), Error> {
         let (_ss, rights) = full_decaps(msk, encapsulation)?;
+        // Rights the MPK holds no encryption key for (e.g. disabled since) are
+        // not part of the new encapsulation.
+        let rights = rights
+            .into_iter()
+            .filter(|r| mpk.has_encryption_key(r))
+            .collect::<HashSet<_>>();
+        if rights.is_empty() {
+            return Err(Error::OperationNotPermitted(
+                "none of the rights of the encapsulation can be encrypted for".to_string(),
+            ));
+        }
         primitives::encaps(
             &mut *self.rng.lock().expect("Mutex lock failed!"),
             mpk,
